@@ -270,7 +270,7 @@ def cholesky_update(
     _kernel, covariance_scale = _extract_kernel_and_scale(kernel)
     if lvec is None:
         lvec = _compute_lvec(features, chol_fact, _kernel, covariance_scale, feature)
-    kscal = anp.reshape(_kernel.diagonal(feature) * covariance_scale, (1,))
+    kscal = anp.reshape(_kernel(feature, feature) * covariance_scale, (1,))
     noise_variance = anp.reshape(noise_variance, (1,))
     lsqscal = anp.maximum(
         kscal + noise_variance - anp.sum(anp.square(lvec)),
